@@ -298,6 +298,7 @@ class Compiler:
             sub_routines=self.sub_routines,
             parameters=params,
             return_type=ret_type,
+            hybrid_tmp_prefix=f"{name}_",
         )
         transformer.macros = self.transformer.macros
         body = transformer.transform(ast_body)
